@@ -111,6 +111,10 @@ class VTime(EngineBase):
                                           rng.random() * 3])
             plan["ops"] = [{"op": "wait_procs", "timeout": timeout,
                             "cb": rng.random() < 0.7}]
+            live = [s for s in plan["procs"] if s["kind"] != "never"]
+            if live and rng.random() < 0.15:
+                plan["stale_twin"] = rng.choice(live)["pid"]
+                plan["twin_at"] = rng.randrange(0, 8)
             if rng.random() < 0.4:
                 # the same objects handed in again (a supervisor loop)
                 plan["ops"].append({"op": "wait_procs", "timeout": rng.choice(
@@ -131,7 +135,8 @@ class VTime(EngineBase):
         world = dict(plan["world"])
         procs = []
         for s in plan["procs"]:
-            if s["kind"] == "never" or s.get("popen"):
+            if s["kind"] == "never" or s.get("popen") or \
+                    plan.get("stale_twin") == s["pid"]:
                 continue
             procs.append({"pid": s["pid"], "ppid": 1000 if s["kind"] ==
                           "child" else 1, "is_child": s["kind"] == "child",
@@ -161,6 +166,21 @@ class VTime(EngineBase):
         for s in plan["procs"]:
             if s["kind"] == "never":
                 k.spawn(pid=s["pid"], ppid=1, comm=b"ghost")
+            if plan.get("stale_twin") == s["pid"] and s["kind"] != "never":
+                # the PID had a previous owner the application still holds a
+                # (finished, waited-for) handle on
+                k.spawn(pid=s["pid"], ppid=1, comm=b"old")
+                twin = psutil.Process(s["pid"])
+                k.apply_event({"ev": "vanish", "pid": s["pid"]})
+                try:
+                    twin.wait(0)
+                except psutil.Error:
+                    pass
+                handles["twin"] = twin
+                k.spawn(pid=s["pid"], ppid=1000 if s["kind"] == "child"
+                        else 1, is_child=s["kind"] == "child",
+                        comm="w%d" % s["pid"])
+                probes["stale_twin_handle"] = 1
             if s.get("popen"):
                 # a psutil.Popen: the subprocess side may reap the child
                 # (poll()) before psutil's wait() is asked
@@ -289,6 +309,9 @@ class VTime(EngineBase):
                     out = ("value", h.wait(timeout))
                 else:
                     hs = [handles[s["pid"]] for s in plan["procs"]]
+                    if "twin" in handles:
+                        hs.insert(plan.get("twin_at", 0) % (len(hs) + 1),
+                                  handles["twin"])
                     cb = (lambda p: cb_calls.append(p)) if op.get("cb") \
                         else None
                     out = ("value", psutil.wait_procs(hs, timeout=timeout,
@@ -472,11 +495,34 @@ class VTime(EngineBase):
             return
         gone, alive = out[1]
         inputs = [handles[s["pid"]] for s in plan["procs"]]
+        twin = handles.get("twin")
+        if twin is not None:
+            inputs.append(twin)
+            if sum(1 for x in gone if x is twin) != 1 or any(
+                    x is twin for x in alive):
+                V("C15.partition", tags + ["stale_twin"], api, "the handle "
+                  "of the PID's previous (finished) owner is %d times in "
+                  "gone, %d times in alive" % (
+                      sum(1 for x in gone if x is twin),
+                      sum(1 for x in alive if x is twin)))
+            elif getattr(twin, "returncode", "missing") is not None:
+                V("C15.returncode", tags + ["stale_twin"], api,
+                  "returncode of the previous owner's handle is %r" % (
+                      getattr(twin, "returncode", "missing"),))
+            if op.get("cb") and sum(1 for c in cb_calls if c is twin) != 1:
+                V("C15.callback", tags + ["count", "stale_twin"], api,
+                  "callback called %d times for the previous owner's "
+                  "handle" % sum(1 for c in cb_calls if c is twin))
+            gone = [x for x in gone if x is not twin]
+            alive = [x for x in alive if x is not twin]
+            inputs_chk = [x for x in inputs if x is not twin]
+        else:
+            inputs_chk = inputs
         gi = [id(x) for x in gone]
         ai = [id(x) for x in alive]
         if set(gi) & set(ai) or len(set(gi)) != len(gi) or \
                 len(set(ai)) != len(ai) or \
-                set(gi) | set(ai) != {id(x) for x in inputs}:
+                set(gi) | set(ai) != {id(x) for x in inputs_chk}:
             V("C15.partition", tags, api, "gone=%r alive=%r do not partition "
               "the %d inputs" % ([p.pid for p in gone], [p.pid for p in alive],
                                  len(inputs)))
